@@ -609,3 +609,132 @@ Proof.
       * apply Hmsgs. intros k' st' m' Hk'. cbn in Hk'. apply lookup_insert_Some in Hk' as [[<- <-]|[_ Hk']]; [done|by apply (sc_msgs c Hsc k' st' m')].
     + pose proof (topo_closed_unused Async D c eq_refl Ht self p k st Hp (or_introl Hact) Hk). congruence.
 Qed.
+
+(* ------------------------------------------------------------------ one step; runs; programs *)
+Require Import Grits.spec.SynOk Grits.proofs.RtInit Grits.proofs.RtTheorems Grits.proofs.RtStaticCheck Grits.proofs.RtTcSyn
+               Grits.proofs.RtTcBisim Grits.proofs.ParseSynOk Grits.proofs.ParseRaw Grits.proofs.AsyncSync
+               Grits.proofs.DeterminismAll Grits.proofs.SrcAll.
+
+Section all_runs.
+Variable D : tenv.
+Variable F : list fundef.
+Variable teq : sty -> sty -> Prop.
+Hypothesis Hteq : teq_laws D teq.
+Hypothesis HF : funs_typed D F teq.
+Hypothesis HFa : TopoStep.funs_aff F.
+Hypothesis HFn : nofd_funs F.
+
+(* every Async step of a configuration whose provider lists have length one or two: zero or one step of
+   Sax.v (structural rules included), same labels *)
+Theorem refines_all_step c self c' :
+  InvX D F teq c -> SplitCfg c -> step Async D F c (Run self) = SStep c' ->
+  exists ls, sax_stepS01 F (α c) ls (α c') /\ labels c' = labels c ++ ls.
+Proof.
+  intros [[Δ Hc] Ht Hl Hns Hpv Hd Hnf] Hsc Hstep.
+  destruct (procs c !! self) as [p|] eqn:Hp; [|by apply step_run_async_inv in Hstep as (p & Hp' & _); congruence].
+  destruct (ct_procs _ _ _ _ _ Hc self p Hp) as (s & rs & _ & Hprov & _).
+  destruct (sc_procs c Hsc self p Hp) as [[n Hpvn]|(n1 & n2 & Hpvn)].
+  - rewrite Hpvn in Hprov. apply Forall_cons_iff in Hprov as [(a & t' & Hn & _) _].
+    destruct p as [provs body next]. cbn in Hpvn. subst provs.
+    destruct body; try (eapply (lin_case2 D F teq Hteq HF Δ c self n a); eauto; done).
+    + destruct droppable.
+      * eapply (dfwd_case D F teq Hteq HF Δ c self n a); eauto.
+      * eapply (lin_case2 D F teq Hteq HF Δ c self n a); eauto. done.
+    + eapply (split_case D F teq Δ c self n a); eauto.
+    + eapply (drop_case D F teq Δ c self n a); eauto.
+  - destruct p as [provs body next]. cbn in Hpvn. subst provs.
+    eapply (two_case D F teq Hteq HF Δ c self n1 n2); eauto.
+Qed.
+
+Lemma refines_all_step_md md c ch c' :
+  is_np md = false -> InvX D F teq c -> SplitCfg c -> (md = Sync -> bufs_empty c) -> step md D F c ch = SStep c' ->
+  (exists ls, sax_steps F true (α c) ls (α c') /\ labels c' = labels c ++ ls) /\ SplitCfg c'.
+Proof.
+  intros Hnp HI Hsc Hb Hs.
+  assert (forall c0 self c1, InvX D F teq c0 -> SplitCfg c0 -> step Async D F c0 (Run self) = SStep c1 ->
+            (exists ls, sax_steps F true (α c0) ls (α c1) /\ labels c1 = labels c0 ++ ls) /\ SplitCfg c1) as Hone.
+  { intros c0 self c1 HI0 Hsc0 Hs0. split.
+    - destruct (refines_all_step c0 self c1 HI0 Hsc0 Hs0) as (ls & H1 & H2). exists ls. split; [by apply sax_stepS01_steps|done].
+    - exact (splitcfg_step D F c0 self c1 (ix_topo _ _ _ _ HI0) Hsc0 Hs0). }
+  destruct md; [| |done].
+  - destruct (async_step_run D F c ch c' Hs) as [self ->]. by apply (Hone c self c').
+  - destruct (sync_step_async D F c ch c' (Hb eq_refl) Hs) as [(p & -> & H1)|(s & r & c1 & -> & H1 & H2)].
+    + by apply (Hone c p c').
+    + destruct (Hone c s c1 HI Hsc H1) as [(l1 & Hs1 & Hl1) Hsc1].
+      pose proof (invx_step_async D F teq Hteq HF HFa HFn c (Run s) c1 HI H1) as HI1.
+      destruct (Hone c1 r c' HI1 Hsc1 H2) as [(l2 & Hs2 & Hl2) Hsc2]. split; [|done].
+      exists (l1 ++ l2). split; [by eapply sax_steps_app|]. by rewrite Hl2, Hl1, app_assoc.
+Qed.
+
+Theorem refines_all_run_md md c tr c' :
+  is_np md = false -> InvX D F teq c -> SplitCfg c -> (md = Sync -> bufs_empty c) -> steps md D F c tr c' ->
+  exists ls, sax_steps F true (α c) ls (α c') /\ labels c' = labels c ++ ls.
+Proof.
+  intros Hnp HI Hsc Hb Hs. induction Hs as [c|c ch c1 tr c2 Hstep _ IH].
+  - exists []. split; [by apply sax_refl|by rewrite app_nil_r].
+  - destruct (refines_all_step_md md c ch c1 Hnp HI Hsc Hb Hstep) as [(l1 & Hs1 & Hl1) Hsc1].
+    destruct (invx_step D F teq Hteq HF HFa HFn md c ch c1 Hnp HI Hb Hstep) as [HI1 Hb1].
+    destruct (IH HI1 Hsc1 Hb1) as (l2 & Hs2 & Hl2).
+    exists (l1 ++ l2). split; [by eapply sax_steps_app|]. by rewrite Hl2, Hl1, app_assoc.
+Qed.
+End all_runs.
+
+(* one provider name per declaration (everything else allowed: drop, split, all the connectives) *)
+Definition single_decls (p : program) : bool :=
+  forallb (fun pr => match pr_providers pr with [_] => true | _ => false end) (p_procs p).
+
+Lemma single_decls_init p : single_decls p = true -> SplitCfg (init_config p) /\
+  forall q pr, procs (init_config p) !! q = Some pr -> exists n, pr_provs pr = [n].
+Proof.
+  unfold single_decls. rewrite forallb_forall. intros Hs.
+  assert (forall q pr, procs (init_config p) !! q = Some pr -> exists n, pr_provs pr = [n]) as H1.
+  { intros q pr' Hq. apply init_procs_lookup in Hq as (i & pr & Hpr & -> & Hpv & _).
+    assert (In pr (p_procs p)) as Hin by (by eapply elem_of_list_In, elem_of_list_lookup_2).
+    specialize (Hs pr Hin). cbn in Hs. destruct (pr_providers pr) as [|x [|y r]] eqn:Hprov; try done.
+    rewrite Hpv. cbn. eauto. }
+  split; [|done]. split.
+  - intros q pr Hq. left. by apply (H1 q pr).
+  - intros k st m Hk Hb. pose proof (bufs_empty_init p k st Hk). congruence.
+Qed.
+
+(* C04, results, for EVERY parsed accepted closed program with one provider name per declaration — with
+   drop and split — in both polarized modes: the labels of every run are printed by an execution of
+   spec/Sax.v (structural rules included) from the program's own SAX initial configuration *)
+Theorem prints_admitted_all md txt p p' :
+  is_np md = false ->
+  parse_string txt = POk p -> typecheck p = Accept p' -> in_fragment p' -> single_decls p' = true ->
+  forall fuel pick, exists C',
+    sax_steps (p_funs p') true (sax_init p')
+      (labels (res_config (exec_run fuel pick md (p_types p') (p_funs p') (init_config p')))) C'.
+Proof.
+  intros Hnp Hp Ha Hf Hsd fuel pick.
+  pose proof (parse_syn_ok _ _ Hp) as PS. pose proof (parse_raw_ok _ _ Hp) as RS.
+  destruct (init_invx p p' Ha Hf PS RS (all_src_parsed txt p p' Hp Ha)) as (HFa & HFn & HI).
+  pose proof (tc_annotations_typed_rt p p' Ha PS RS Hf) as Hst.
+  destruct (single_decls_init p' Hsd) as [Hsc Hsingle].
+  rewrite <- (exec_trace_exec_run md (p_types p') (p_funs p') fuel pick (init_config p') []).
+  destruct (exec_trace fuel pick md (p_types p') (p_funs p') (init_config p') []) as [r tr] eqn:Htr. cbn [fst].
+  apply exec_trace_run in Htr as (es & _ & Hrun).
+  destruct (refines_all_run_md _ _ _ (teq_rt_laws _) (proj1 Hst) HFa HFn md _ _ _ Hnp HI Hsc
+              (fun _ => bufs_empty_init p') Hrun) as (ls & Hs & Hl).
+  exists (α (res_config r)). rewrite Hl. change (labels (init_config p')) with (@nil string). cbn.
+  eapply sax_steps_perm; [symmetry; by apply alpha_init|done].
+Qed.
+
+Definition c04_all_text (txt : string) : bool :=
+  match parse_string txt with
+  | POk p => match typecheck p with Accept p' => in_fragment_b p' && single_decls p' | _ => false end
+  | _ => false
+  end.
+
+Theorem prints_admitted_all_text txt : c04_all_text txt = true ->
+  exists p p', parse_string txt = POk p /\ typecheck p = Accept p' /\
+  forall md, is_np md = false -> forall fuel pick, exists C',
+    sax_steps (p_funs p') true (sax_init p')
+      (labels (res_config (exec_run fuel pick md (p_types p') (p_funs p') (init_config p')))) C'.
+Proof.
+  unfold c04_all_text. destruct (parse_string txt) as [p| | |] eqn:Hp; try discriminate.
+  destruct (typecheck p) as [p'| | |] eqn:Ha; try discriminate.
+  intros [Hf Hc]%andb_prop. exists p, p'. split; [done|]. split; [done|]. intros md Hnp.
+  apply (prints_admitted_all md txt p p' Hnp Hp Ha); [by apply in_fragment_b_sound|done].
+Qed.
